@@ -14,7 +14,7 @@ After every step the primary definition of every object *not* targeted by the st
 """
 import copy
 
-from sim import shapes
+from sim import shapes, pool as simpool
 from sim.core import Rng, close, h64, Precondition
 
 PROPS = ["C12"]
@@ -40,6 +40,7 @@ VIEWS_ALL = ["ctrlpts", "weights", "ctrlptsw", "ctrlpts2d", "evalpts", "bbox", "
 
 def prepare():
     shapes.G.load()
+    simpool.install()
 
 
 # ---------------------------------------------------------------------------------------------
@@ -49,7 +50,7 @@ EDITS = [("set_pts", 3), ("set_weights", 2), ("set_knots", 1.5), ("redefine", 1)
          ("insert", 2), ("remove", 1), ("refine", 0.7), ("reverse", 2), ("transpose", 1.5), ("flip", 1),
          ("translate", 1.5), ("rotate", 0.8), ("scale", 1), ("deepcopy", 1.2), ("transform_copy", 0.8)]
 REJECTS = ["bad_delta", "bad_sample", "bad_knots", "bad_point", "bad_insert", "bad_weights"]
-CONT_OPS = [("cadd", 3), ("cdelta", 1), ("csample", 1), ("cread", 3)]
+CONT_OPS = [("cadd", 3), ("cdelta", 1), ("csample", 1), ("cread", 3), ("ctess", 1)]
 
 
 def gen(prop, stream, tier, avoid):
@@ -94,6 +95,10 @@ def gen(prop, stream, tier, avoid):
                 op["value"] = rng.randint(3, 6)
             elif c == "cread":
                 op["views"] = [rng.pick(["evalpts", "bbox", "evalpts", "vertices", "faces"])]
+            elif c == "ctess":
+                op["num_procs"] = rng.pick([1, 2, 2, 4])
+                op["force"] = rng.chance(0.5)
+                op["delta"] = rng.chance(0.7)
             ops.append(op)
         else:
             if rng.chance(knobs["reject_p"]):
@@ -571,6 +576,7 @@ def _mark_edit(world, i, lv):
 
 def run(script, ctx):
     g = shapes.G.load()
+    simpool.configure(h64(script.get("seed", 0), script.get("run", 0), "pool"), "default", [], ctx)
     world = World(script, ctx)
     ctx.log("built", [(lv.kind, lv.rational) for lv in world.objs], len(world.conts))
     for idx, op in enumerate(script["ops"]):
@@ -600,7 +606,7 @@ def run(script, ctx):
             ctx.ops_executed += 1
             targeted.add(i)   # evaluate/tessellate may legitimately touch nothing primary, but keep it simple
 
-        elif k in ("cadd", "cdelta", "csample", "cread"):
+        elif k in ("cadd", "cdelta", "csample", "cread", "ctess"):
             if not world.conts:
                 ctx.ops_skipped += 1
                 continue
@@ -620,6 +626,19 @@ def run(script, ctx):
                     c["edited_warm"] = True
                 c["warm"] = set()
                 ctx.log("cadd", ci, i)
+            elif k == "ctess":
+                if c["kind"] != "surface" or not c["members"] or any(world.objs[m].undefined for m in c["members"]):
+                    ctx.ops_skipped += 1
+                    continue
+                kw = {"force": op["force"], "delta": op["delta"]}
+                if op["num_procs"] > 1:
+                    kw["num_procs"] = op["num_procs"]
+                    ctx.probe("container_tessellate_on_simulated_pool")
+                cont.tessellate(**kw)
+                ctx.log("ctess", ci, op["num_procs"], op["force"], op["delta"])
+                for m in c["members"]:
+                    targeted.add(m)
+                    _mark_edit_density(world.objs[m])
             elif k in ("cdelta", "csample"):
                 if k == "cdelta":
                     cont.delta = op["value"]
